@@ -14,6 +14,15 @@ perturbing everything after an episode boundary (and every other column) and re-
 learn; alignment by provenance decoding of all six flattened tensors; the bootstrap value by calling
 the critic on the final next observation (for PPO also: equal to the value the rollout path
 `get_action` gives, D18).
+
+Source translation (`pre_gate`, before the Lean gate): `py2lean_gae.py` translates the source text of the
+advantage-estimation loop of `PPO.learn` (agilerl/algorithms/ppo.py) and `IPPO._learn_individual`
+(agilerl/algorithms/ippo.py) of the tree under test into `lean/Gen/GAEGen.lean`; `Proofs/GAEGenEq.lean`
+proves the generated loop body / range equal to `loopBody` / `gaeLoop` / `returnsOf` and `Props/C17.lean`
+restates the advantage / return theorems over the generated definitions (`C17_source_translation_*`).
+If the translator rejects the source or those proofs stop checking, that is a gate problem naming the
+broken equality; the gae+rows suites below (recorded advantages/returns vs the model and vs the recursion
+recomputed with Fractions, no-leak perturbation) then supply the failing rollout if there is one.
 """
 from __future__ import annotations
 
@@ -1412,6 +1421,16 @@ def run(chk: Check) -> None:
     probe_bootstrap(chk, rng, 2 if chk.tier == "quick" else 5)
     if chk.tier == "thorough":
         selftest(chk)
+
+
+def pre_gate(chk: Check) -> None:
+    """Regenerate lean/Gen/GAEGen.lean from the source text of the tree under test (before the Lean gate)
+    and re-check `generated = model` (Proofs/GAEGenEq.lean) and the theorems over the generated
+    definitions (Props/C17.lean)."""
+    import common
+    import py2lean_gae
+    common.translation_gate(chk, py2lean_gae, "Gen/GAEGen.lean", ["Gen.GAEGen", "Proofs.GAEGenEq", "Props.C17"],
+                            "advantage-estimation loop of PPO.learn and IPPO._learn_individual")
 
 
 # ----------------------------------------------------------------------------- self-test (seeded faults)
